@@ -289,6 +289,96 @@ async fn run(ctx: &mut Ctx, npeers: usize, seed: u64, gone_kind: u64, case: &Val
     }
 }
 
+/// A peer that announced an identity goes away and comes back (new connection, same
+/// identity) before the socket has looked at the old connection again: the only
+/// *connected* peer with that identity is the new one.
+async fn reconnect(ctx: &mut Ctx, observed_first: bool, idlen: usize, case: &Value) {
+    let mut sock = Sock::new("ROUTER", None);
+    let ident: Vec<u8> = (0..idlen).map(|i| 0x30 + (i % 40) as u8).collect();
+    let other = match Peer::attach(&sock, "DEALER", Some(b"bystander")).await {
+        Ok(p) => p,
+        Err(e) => {
+            ctx.inconclusive(format!("C09 attach: {e}"));
+            return;
+        }
+    };
+    let old = match Peer::attach(&sock, "DEALER", Some(&ident)).await {
+        Ok(p) => p,
+        Err(e) => {
+            ctx.inconclusive(format!("C09 attach: {e}"));
+            return;
+        }
+    };
+    old.send(&rc::tagged(1, 0, &[3]));
+    match recv_now(&mut sock).await {
+        Some(Ok(m)) if m[0] == ident => {}
+        other => {
+            ctx.violation_with("C09/inbound-labelled-with-wrong-identity", format!("first message of the peer: {other:?}"), case.clone());
+            return;
+        }
+    }
+    old.conn.close_full(EndKind::Eof);
+    if observed_first {
+        let _ = recv_now(&mut sock).await;
+        ctx.count("reconnects_after_the_end_was_observed");
+    } else {
+        ctx.count("reconnects_before_the_end_was_observed");
+    }
+    let newp = match Peer::attach(&sock, "DEALER", Some(&ident)).await {
+        Ok(p) => p,
+        Err(e) => {
+            ctx.violation_with("C09/reconnect-rejected", format!("a peer reconnecting under its identity was rejected: {e}"), case.clone());
+            return;
+        }
+    };
+    // outbound: must reach the connected peer with that identity, i.e. the new connection
+    let payload = rc::tagged(2, 0, &[7, 0]);
+    let mut m = vec![ident.clone()];
+    m.extend(payload.clone());
+    let before_other = other.conn.tap_len();
+    let r = sim::complete(sock.send(&m)).await;
+    let got_new = newp.out_msgs().unwrap_or_default();
+    if !matches!(r, Ok(Ok(()))) || got_new != vec![payload.clone()] || other.conn.tap_len() != before_other {
+        ctx.violation_with(
+            "C09/reconnected-peer-not-reachable",
+            format!(
+                "peer reconnected under identity {} (old connection ended, observed first: {observed_first}); send returned {r:?}, new connection received {:?}",
+                rc::hex(&ident),
+                got_new.iter().map(|x| rc::frames_summary(x)).collect::<Vec<_>>()
+            ),
+            case.clone(),
+        );
+        return;
+    }
+    // inbound from the new connection carries the identity, and it stays reachable afterwards
+    newp.send(&rc::tagged(3, 0, &[2]));
+    let mut ok = false;
+    for _ in 0..4 {
+        match recv_now(&mut sock).await {
+            Some(Ok(x)) if x[0] == ident && rc::parse_tag(&x, 1).map(|t| t.origin == 3).unwrap_or(false) => {
+                ok = true;
+                break;
+            }
+            Some(_) => continue,
+            None => break,
+        }
+    }
+    if !ok {
+        ctx.violation_with("C09/reconnected-peer-inbound-lost", "message of the reconnected peer was not delivered under its identity".into(), case.clone());
+        return;
+    }
+    let mut m2 = vec![ident.clone()];
+    m2.extend(rc::tagged(4, 0, &[1]));
+    let r2 = sim::complete(sock.send(&m2)).await;
+    if !matches!(r2, Ok(Ok(()))) || newp.out_msgs().map(|v| v.len()).unwrap_or(0) != 2 {
+        ctx.violation_with(
+            "C09/reconnected-peer-not-reachable",
+            format!("after the socket polled its connections again the reconnected peer is no longer reachable: {r2:?}"),
+            case.clone(),
+        );
+    }
+}
+
 impl Prop for C09 {
     fn id(&self) -> &'static str {
         "C09"
@@ -301,10 +391,21 @@ impl Prop for C09 {
                 v.push(json!({"kind": "run", "peers": n, "seed": mix(seed ^ (k as u64) << 4 ^ n as u64), "gone": k % 3}));
             }
         }
+        for observed in [false, true] {
+            for idlen in [1usize, 5, 16, 255] {
+                v.push(json!({"kind": "reconnect", "observed": observed, "idlen": idlen}));
+            }
+        }
         v
     }
 
     fn run(&self, case: &Value, ctx: &mut Ctx) {
+        if s(case, "kind") == "reconnect" {
+            ctx.eval(hash_str(&case.to_string()), true);
+            ctx.sample("reconnect", || case.clone());
+            sim::run(reconnect(ctx, case["observed"].as_bool().unwrap_or(false), u(case, "idlen") as usize, case));
+            return;
+        }
         ctx.eval(hash_str(&case.to_string()), u(case, "peers") > 1);
         ctx.sample("run", || case.clone());
         sim::run(run(ctx, u(case, "peers") as usize, u(case, "seed"), u(case, "gone"), case));
@@ -320,6 +421,8 @@ impl Prop for C09 {
             ("sends_to_live_peer", 1000),
             ("sends_to_unknown_identity", 300),
             ("sends_to_gone_peer", 200),
+            ("reconnects_before_the_end_was_observed", 4),
+            ("reconnects_after_the_end_was_observed", 4),
         ]
     }
 }
